@@ -36,8 +36,8 @@ Proof.
     destruct (nth_error (cells s) o) eqn:Hc; [|lia].
     assert (o < length (cells s)) by (apply nth_error_Some; congruence). unfold n. lia. }
   change (vars (pop_temp (dtor_k (nodel v) (move_assign s2 v t) t)) = upd (vars s) v (Live (Some n))).
-  unfold move_assign. rewrite Hpv, Hpt, Hne. rewrite ptr_of_dec, Hpt.
-  unfold pop_temp. cbn [vars]. rewrite vars_dtor_k. cbn [setv vars]. rewrite vars_dec, Hv2.
+  unfold move_assign. rewrite Hpv, Hpt, Hne.
+  unfold pop_temp. cbn [vars]. rewrite vars_dtor_k, vars_dec. cbn [setv vars]. rewrite Hv2.
   rewrite upd_app_front by auto.
   replace t with (length (upd (vars s) v (Live (Some n)))) by (rewrite length_upd; reflexivity).
   rewrite !upd_app_last. apply removelast_last.
